@@ -281,6 +281,12 @@ fn cmd_replay(path: &str) -> i32 {
         eprintln!("harness error: scenario {} not registered for {}", rf.plan.scenario, rf.plan.property);
         return 2;
     };
+    // earlier runs that put library-internal state in place (history-dependent failures only)
+    for p in &rf.prelude {
+        if let Some(psc) = spec.classes.iter().map(|c| c.scenario).find(|s| s.name() == p.scenario) {
+            let _ = std::panic::catch_unwind(std::panic::AssertUnwindSafe(|| execute(psc, p, &env)));
+        }
+    }
     let rec = execute(sc, &rf.plan, &env);
     let hit = rec.violations.iter().find(|v| v.property == rf.expect.property && v.invariant == rf.expect.invariant);
     match hit {
